@@ -28,7 +28,7 @@ RULE = ("one case = solver configuration (class, knobs) + matrix class + 1-2 sol
         "= at least one solve follows a second update, or a fallback/restart/initial-guess path was taken")
 PROBES = ["fallback_fired_forced", "fallback_fired_natural", "switched_back_to_cholesky", "cg_converged_at_iteration_0",
           "cg_restart_taken", "two_level_multigrid", "solve_after_second_update", "two_objects_interleaved", "dependent_columns",
-          "auto_returned_cholesky", "auto_returned_ldl", "auto_returned_lu", "auto_returned_diagonal", "auto_returned_sparselu",
+          "auto_manual_override", "auto_returned_cholesky", "auto_returned_ldl", "auto_returned_lu", "auto_returned_diagonal", "auto_returned_sparselu",
           "trans_T_complex", "trans_H_complex", "rhs_fortran_order", "rhs_strided_view", "matrix_given_to_constructor", "one_by_one_matrix"]
 FAULT_KINDS = ["cholesky_fail_forced", "cholesky_fail_natural"]
 COMPONENTS = {"real": ["pymoto.solvers: SolverDiagonal, SolverDenseQR, SolverDenseLU, SolverDenseCholesky, SolverDenseLDL, "
@@ -108,7 +108,10 @@ def gen(rng, idx, tier):
             ops.append(dict(op="solve", o=o, seed=int(rng.integers(1 << 30)), trans=str(rng.choice(["N", "N", "T", "H"])),
                             k=int(rng.choice([0, 0, 1, 2, 3])), cplx=bool(rng.random() < p_cplx_rhs),
                             dep=bool(rng.random() < 0.2), x0=str(rng.choice(["none", "none", "zero", "random", "exact", "previous"]))))
-    return dict(solver=solver, cls=cls, cplx=bool(cplx), sparse=sparse, n=n, knobs=knobs, fe=fe, nobj=nobj, ops=ops)
+    # truthful manual overrides handed to auto_determine_solver (each "prevents the check" of one matrix property)
+    auto_flags = [f for f in ("issymmetric", "ishermitian", "isdiagonal", "islowertriangular", "isuppertriangular", "ispositivedefinite")
+                  if rng.random() < 0.3] if solver.startswith("auto") and rng.random() < 0.6 else []
+    return dict(solver=solver, cls=cls, cplx=bool(cplx), sparse=sparse, n=n, knobs=knobs, fe=fe, nobj=nobj, ops=ops, auto_flags=auto_flags)
 
 
 def simplify(case):
@@ -207,7 +210,15 @@ def make_solver(case, A_first):
         mg = S.GeometricMultigrid(dom, cycle=k["cycle"], inner_level=inner, smoother=sm, smooth_steps=k["smooth_steps"])
         return S.CG(preconditioner=mg, **cgkw)
     if name in ("auto_dense", "auto_sparse"):
-        return S.auto_determine_solver(A_first)
+        kw = {}
+        if case.get("auto_flags"):
+            Ad = G.todense(A_first)
+            sym, herm = bool(np.array_equal(Ad, Ad.T)), bool(np.array_equal(Ad, Ad.conj().T))
+            truth = dict(issymmetric=sym, ishermitian=herm, isdiagonal=bool(np.array_equal(Ad, np.diag(np.diag(Ad)))),
+                         islowertriangular=bool(np.array_equal(Ad, np.tril(Ad))), isuppertriangular=bool(np.array_equal(Ad, np.triu(Ad))),
+                         ispositivedefinite=bool(herm and np.min(np.linalg.eigvalsh(Ad)) > 0))
+            kw = {f: truth[f] for f in case["auto_flags"]}
+        return S.auto_determine_solver(A_first, **kw)
     raise ValueError(name)
 
 
@@ -270,6 +281,8 @@ def run(case):
                             except TypeError:
                                 pass
                         tn = type(ob["solver"]).__name__
+                        if case["solver"].startswith("auto") and case.get("auto_flags"):
+                            probe("auto_manual_override")
                         if case["solver"].startswith("auto"):
                             probe({"SolverDenseCholesky": "auto_returned_cholesky", "SolverDenseLDL": "auto_returned_ldl",
                                    "SolverDenseLU": "auto_returned_lu", "SolverDiagonal": "auto_returned_diagonal",
